@@ -45,6 +45,10 @@ struct FnDir {
     /// `@@tail name`: the tail expression of the function is bound (`let name = <tail>;`), the
     /// `@@post` text follows, then `name` is the new tail — so that proof text can follow the result
     tail: Option<String>,
+    /// E19 `@@letarg method name` + text: the single argument of the call `path.method(arg)` is
+    /// let-bound in front of the call (`{ let name = arg; <text> path.method(name) }`); the receiver
+    /// must be a plain path, so the evaluation order is unchanged
+    letargs: Vec<(String, String, String)>,
     /// E17: iterator sources are renamed to the `VxIter` stand-ins of units/inc/iter.vx
     viter: bool,
     /// E18: `_ = map.entry(k).or_insert_with(|| body)` is replaced by its std definition
@@ -237,6 +241,13 @@ fn parse_template(path: &Path, nodes: &mut Vec<Node>) {
                         "hoist" => d.hoist = Some(rest.parse().unwrap_or_else(|_| die(&format!("{sctx}: @@hoist needs closure ordinal")))),
                         "sig" => d.sig = Some(rest),
                         "tail" => d.tail = Some(rest),
+                        "letarg" => {
+                            let mut it = rest.split_whitespace();
+                            let m = it.next().unwrap_or_else(|| die(&format!("{sctx}: @@letarg method name"))).to_string();
+                            let n = it.next().unwrap_or_else(|| die(&format!("{sctx}: @@letarg method name"))).to_string();
+                            let t = multiline(&mut i);
+                            d.letargs.push((m, n, t));
+                        }
                         "viter" => d.viter = true,
                         "inline_or_insert_with" => d.inline_entry = true,
                         "inline_then" => d.inline_then.push(rest.parse().unwrap_or_else(|_| die(&format!("{sctx}: @@inline_then needs closure ordinal")))),
@@ -390,6 +401,7 @@ struct Ed<'a> {
     inline_then_used: Vec<usize>,
     viter_used: usize,
     inline_entry_used: usize,
+    letargs_used: Vec<usize>,
     loops_used: Vec<usize>,
     befores_used: Vec<bool>,
     macros_used: Vec<bool>,
@@ -440,6 +452,7 @@ impl<'a> Ed<'a> {
             inline_then_used: vec![],
             viter_used: 0,
             inline_entry_used: 0,
+            letargs_used: vec![0; dir.letargs.len()],
             loops_used: vec![],
             befores_used: vec![false; dir.befores.len()],
             macros_used: vec![false; dir.macros.len()],
@@ -691,6 +704,19 @@ impl<'a, 'ast> Visit<'ast> for Ed<'a> {
                     self.visit_expr(&c.body);
                     return;
                 }
+            }
+        }
+        // E19: `path.method(arg)` -> `{ let name = arg; <proof text> path.method(name) }`
+        for (n, (m, name, text)) in self.dir.letargs.iter().enumerate() {
+            if e.method == m.as_str() && e.args.len() == 1 && matches!(*e.receiver, syn::Expr::Path(_)) {
+                self.letargs_used[n] += 1;
+                let es = e.span().byte_range();
+                let ar = e.args[0].span().byte_range();
+                let recv = self.src[e.receiver.span().byte_range()].to_string();
+                self.push(es.start, ar.start, format!("{{ let {name} = "), "E19-argument-let-bound", true);
+                self.push(ar.end, es.end, format!(";\n{}\n        {recv}.{m}({name}) }}", text.trim_end()), "E19-argument-let-bound", true);
+                self.visit_expr(&e.args[0]);
+                return;
             }
         }
         // E17: iterator sources are renamed to the eager `VxIter` stand-ins (units/inc/iter.vx), whose
@@ -1395,7 +1421,23 @@ fn main() {
                 let hoist_name = d.sig.as_ref().and_then(|sg| sg.find("fn ").map(|p| sg[p + 3..].chars().take_while(|c| c.is_alphanumeric() || *c == '_').collect::<String>())).unwrap_or_default();
                 if d.hoist.is_some() && stubs.contains(&stub_key) {
                     stubbed.push(hoist_name.clone());
-                    output.push_str(&format!("// vx:STUBBED {} {} — contract kept as ASSUMED, body UNVERIFIED\n#[verifier::external_body]\n{}\n{}{{ unimplemented!() }}\n", d.file, d.selector, d.sig.clone().unwrap_or_default(), if nospec { "" } else { d.spec.as_str() }));
+                    // `$k` placeholders: the closure's own parameter names if it can still be found
+                    let mut sg = d.sig.clone().unwrap_or_default();
+                    let mut sp = if nospec { String::new() } else { d.spec.clone() };
+                    let mut cf = ClosureFinder { want: d.hoist.unwrap_or(0), seen: 0, found: None };
+                    cf.visit_block(f.block);
+                    for k in 0..10 {
+                        let mut name = format!("vx_p{k}");
+                        if let Some(c) = cf.found {
+                            if let Some(p) = c.inputs.iter().nth(k) {
+                                let inner = match p { syn::Pat::Type(pt) => &*pt.pat, other => other };
+                                if let syn::Pat::Ident(pi) = inner { name = pi.ident.to_string(); }
+                            }
+                        }
+                        sg = sg.replace(&format!("${k}"), &name);
+                        sp = sp.replace(&format!("${k}"), &name);
+                    }
+                    output.push_str(&format!("// vx:STUBBED {} {} — contract kept as ASSUMED, body UNVERIFIED\n#[verifier::external_body]\n{}\n{}{{ unimplemented!() }}\n", d.file, d.selector, sg, sp));
                     fn_maps.push(serde_json::json!({"selector": d.selector, "file": d.file, "slice": false, "name": hoist_name, "stubbed": true,
                         "src_lines": [0,0], "out_lines": [0,0], "awaits_erased": 0, "closures": 0, "loops": 0, "has_requires": false, "edits": {}}));
                     continue;
@@ -1474,7 +1516,11 @@ fn main() {
                     let br = c.body.span().byte_range();
                     let body = apply_edits(&src.text, br.start, br.end, &ed.edits, &mut counts).unwrap_or_else(|e| die(&format!("{ctx}: {e}")));
                     *counts.entry("E11-closure-hoisted".into()).or_insert(0) += 1;
-                    emitted = format!("{sigt}\n{}{{\n{}{}\n}}\n", hspec, hpre, body);
+                    emitted = match &d.tail {
+                        // `@@tail name`: the closure body is bound, `@@post` follows, `name` is the result
+                        Some(tn) => format!("{sigt}\n{}{{\n{}        let {tn} = {};\n{}\n        {tn}\n}}\n", hspec, hpre, body, d.post),
+                        None => format!("{sigt}\n{}{{\n{}{}\n}}\n", hspec, hpre, body),
+                    };
                     src_range = (c.span().byte_range().start, br.end);
                 } else if d.is_slice {
                     let from = d.from.as_deref().unwrap_or_else(|| die(&format!("{ctx}: @@slice needs @@from")));
@@ -1734,6 +1780,11 @@ fn check_used(ed: &Ed, d: &FnDir, ctx: &str) {
     for (n, (k, anchor, _)) in d.closures_pref.iter().enumerate() {
         if ed.closures_pref_used[n] != 1 {
             die(&format!("{ctx}: @@closure {k} ~{anchor}: no such closure any more ({} closures found)", ed.closure_idx));
+        }
+    }
+    for (n, (m, name, _)) in d.letargs.iter().enumerate() {
+        if ed.letargs_used[n] != 1 {
+            die(&format!("{ctx}: @@letarg {m} {name}: {} calls `<path>.{m}(<one argument>)` found (exactly one expected)", ed.letargs_used[n]));
         }
     }
     for k in &d.inline_then {
